@@ -111,6 +111,21 @@ const LIMIT: Duration = Duration::from_secs(3);
 
 fn is_fault(op: &Op) -> bool { !matches!(op, Op::Valid(_)) }
 
+/// One request on a fresh connection. If nothing arrives within LIMIT while other client connections are open, those are closed and the
+/// same connection is read again: a response that arrives only then was waiting behind them (second value true) - a causal signal, not a timer.
+fn request_releasing(srv: &Server, req: &[u8], others: &mut Vec<std::net::TcpStream>) -> (net::Exchange, bool) {
+    let mut s = match srv.connect() { Ok(s) => s, Err(e) => return (net::Exchange { bytes: vec![], outcome: Outcome::ConnectFailed(e.to_string()) }, false) };
+    if let Err(e) = s.write_all(req) { return (net::Exchange { bytes: vec![], outcome: Outcome::WriteFailed(e.to_string()) }, false); }
+    let ex = net::read_all(&mut s, LIMIT);
+    if ex.outcome == Outcome::TimedOut && ex.bytes.is_empty() && !others.is_empty() {
+        others.clear();
+        let again = net::read_all(&mut s, LIMIT);
+        let helped = !again.bytes.is_empty();
+        return (again, helped);
+    }
+    (ex, false)
+}
+
 pub fn run_history(ctx: &Ctx, docroot: &std::path::Path, h: &History) -> Verdict {
     let n = h.workers.max(1) as u32;
     let mut srv = match Server::start(&ServerOpts::new(docroot, n)) { Ok(s) => s, Err(e) => { ctx.inconclusive(&format!("server start: {}", e)); return Verdict::Discard; } };
@@ -126,7 +141,15 @@ pub fn run_history(ctx: &Ctx, docroot: &std::path::Path, h: &History) -> Verdict
                 // with idle connections held, a valid request may legitimately wait for a free worker: release them first if the pool is full
                 if held.len() as u32 >= n { held.clear(); }
                 let req = valid_request(*k);
-                let ex = srv.roundtrip(&req, LIMIT);
+                let (ex, released) = request_releasing(&srv, &req, &mut held);
+                if released {
+                    // repeat once with the same number of idle connections: the dependency must show again before it counts
+                    for _ in 0..held_before { if let Ok(s) = srv.connect() { held.push(s); } }
+                    std::thread::sleep(Duration::from_millis(5));
+                    let (_, again) = request_releasing(&srv, &req, &mut held);
+                    if again { problems.push(("capacity-lost".into(), format!("{}: with {} idle connection(s) held on a {}-worker server a valid request was answered only after they were closed (observed twice)", describe_op(i, op), held_before, n))); break 'ops; }
+                    ctx.note("valid-request-answered-late-once");
+                }
                 match (&ex.outcome, mhttp::parse(&ex.bytes)) {
                     (Outcome::Closed, Ok(r)) | (Outcome::Reset(_), Ok(r)) => {
                         let want: u16 = match k % 6 { 3 => 206, 4 => 404, 5 => if FIXED_PATHS[*k as usize % FIXED_PATHS.len()] == "/missing" || FIXED_PATHS[*k as usize % FIXED_PATHS.len()].starts_with("/noindex") && !FIXED_PATHS[*k as usize % FIXED_PATHS.len()].ends_with(".css") { 404 } else { 200 }, _ => 200 };
@@ -190,9 +213,18 @@ pub fn run_history(ctx: &Ctx, docroot: &std::path::Path, h: &History) -> Verdict
                 let mut idle = vec![];
                 for _ in 0..n.saturating_sub(1) { if let Ok(s) = srv.connect() { idle.push(s); } }
                 std::thread::sleep(Duration::from_millis(5));
-                let ex = srv.roundtrip(&valid_request(0), LIMIT);
+                let pinned = idle.len();
+                let (ex, released) = request_releasing(&srv, &valid_request(0), &mut idle);
                 let ok = matches!(mhttp::parse(&ex.bytes), Ok(ref r) if r.status == 200);
-                if !ok {
+                if released {
+                    // repeat once: the dependency on the idle connections must show again before it counts
+                    let mut idle2 = vec![];
+                    for _ in 0..n.saturating_sub(1) { if let Ok(s) = srv.connect() { idle2.push(s); } }
+                    std::thread::sleep(Duration::from_millis(5));
+                    let (_, again) = request_releasing(&srv, &valid_request(0), &mut idle2);
+                    if again { problems.push(("capacity-lost".into(), format!("with {} idle connections on a {}-worker server the next request was answered only after the idle connections were closed (observed twice): fewer than {} connections are served simultaneously", pinned, n, n))); }
+                    else { ctx.inconclusive("capacity probe answered late once, promptly on repetition"); return Verdict::Discard; }
+                } else if !ok {
                     let missing = srv.missing_workers();
                     if ex.outcome == Outcome::TimedOut && missing.is_empty() && srv.exited().is_none() { ctx.inconclusive("capacity probe not answered within the limit although process and workers look healthy"); return Verdict::Discard; }
                     problems.push(("capacity-lost".into(), format!("with {} idle connections on a {}-worker server the next request got {:?} ({} bytes); missing workers {:?}; exited={:?}", idle.len(), n, ex.outcome, ex.bytes.len(), missing, srv.exited())));
